@@ -51,8 +51,16 @@ package imagehash
 //@ func init$init$2
 //@   props C19
 //@   ensures [C19] is(r0, "*[]float64") && len(*as(r0, "*[]float64")) == 65536
-//@ pool pixelsPool32 *[]float32
-//@ pool pixelsPool256Alt *[]float32
+//@ pool pixelsPool32 *[]float32 inv [C19] len(*it) == 4096
+//@ pool pixelsPool256Alt *[]float32 inv [C19] len(*it) == 65536
+
+//@ func init$init$3
+//@   props C19
+//@   ensures [C19] is(r0, "*[]float32") && len(*as(r0, "*[]float32")) == 4096
+
+//@ func init$init$4
+//@   props C19
+//@   ensures [C19] is(r0, "*[]float32") && len(*as(r0, "*[]float32")) == 65536
 
 // Size guard: a hash is produced exactly for non-nil images of the required size; bit assembly: bit (63 - k) of the hash
 // is set iff coefficient k (row-major, as returned by the DCT kernel) is strictly above the single threshold `median`.
